@@ -12,7 +12,7 @@ one() {
   pid=$(python3 -c "import json;print(json.load(open('$VROOT/seeded/$n/meta.json'))['property'])")
   wt=/tmp/wt_matrix_$n
   if [ ! -d $wt ]; then git -C $REPO worktree add -f --detach $wt HEAD >/dev/null 2>&1; git -C $wt apply $VROOT/seeded/$n/patch.diff || { echo "$n $pid patch does not apply"; return; }; fi
-  out=$(cd $VROOT && VERIF_SEED=$s VERIF_REPO=$wt timeout 1500 bin/check $pid --tier quick 2>&1); rc=$?
+  out=$(cd $VROOT && VERIF_EVIDENCE_DIR=/tmp/ev_matrix_$n VERIF_REPLAY_DIR=/tmp/ev_matrix_$n VERIF_SEED=$s VERIF_REPO=$wt timeout 1500 bin/check $pid --tier quick 2>&1); rc=$?
   echo "$n $pid VERIF_SEED=$s rc=$rc violations=$(echo "$out" | grep -c '^VIOLATION')"
 }
 export -f one; export VROOT REPO
@@ -20,5 +20,5 @@ par=""; ser=""
 for n in $names; do case $n in C10*) ser="$ser $n";; *) par="$par $n";; esac; done
 for s in $seeds; do for n in $par; do echo "$n $s"; done; done | xargs -P 3 -L 1 bash -c 'one $0 $1'
 for s in $seeds; do for n in $ser; do one $n $s; done; done
-for n in $names; do git -C $REPO worktree remove --force /tmp/wt_matrix_$n >/dev/null 2>&1; done
+for n in $names; do git -C $REPO worktree remove --force /tmp/wt_matrix_$n >/dev/null 2>&1; rm -rf /tmp/ev_matrix_$n; done
 git -C $REPO worktree prune
